@@ -57,6 +57,9 @@ pub struct ItemReq {
     /// R17b: method name after which a request-builder chain is cut (`cut_chain` rule)
     #[serde(default)]
     pub cut_method: Option<String>,
+    /// R32: type ascriptions for the k-th collector (`let mut __vx_out: T`), where inference needs them before the loop
+    #[serde(default)]
+    pub collect_types: Vec<String>,
     /// cargo features that are off in the shipped configuration: statements gated on them are dropped (R2)
     #[serde(default)]
     pub off_features: Vec<String>,
